@@ -1,4 +1,5 @@
 import Ptn.C02.CompositeWF
+import Ptn.C02.BuildLabels
 /-! # Structural corollaries for C06 / C07 (TDVP), proved on the structural TTN model of C02
 
 The tree surgery of a TDVP step, modelled in `Ptn/C02/Composite.lean` line by line from
@@ -14,56 +15,119 @@ The tree surgery of a TDVP step, modelled in `Ptn/C02/Composite.lean` line by li
 * `centreMove a b rid bd`     = `split_qr_contract_r_to_neighbour(ttn, a, b)` (every step of
     `move_orthogonalization_center` / `canonical_form`).
 
-`t.S k = some (parent, children)` is the structure of node `k` (`none`: no such node).  Each theorem
-holds for both orientations of the pair and for any numbers of further children and open legs; the new
-bond dimension `bd` is arbitrary.
+`t.S k = some (parent, children)` is the structure of node `k` (`none`: no such node); `t.openAxes k` are
+the open axes (label, dimension) of node `k` in order; `t.LWF` is the label invariant of C02 (the two ends of
+every bond carry the same label and dimension).  Each theorem holds for both orientations of the pair and
+for any numbers of further children and open legs; the new bond dimension `bd` is arbitrary.
 
-**Proved**: well-formedness (`TTN.WF`: one root, symmetric links, a tree, equal key sets, Node invariants,
-recorded shapes = stored shapes), same root, same identifiers, same parent of every node, same children of
-every node, and the exact child ORDER afterwards.
-
-**Not proved (hence `_partial`)**: that every node keeps its open legs in order (and, for the exact
-QR-based updates, all leg dimensions).  The structural model computes them (the driver prints open labels
-and shapes, `C02 hist … link:… twosite:… move:…`), and the harness-side comparison with the library found no
-difference, but there is no theorem about them.  Core Lean only. -/
+**Proved**: well-formedness (`TTN.WF`) and the label invariant are preserved; same root, same identifiers,
+same parent of every node, same children of every node with the exact child ORDER afterwards; and **every
+node keeps exactly its open legs – same labels, same order, same dimensions** (so only bond dimensions
+change).  The `…_partial` theorems are the structure-only versions (no hypothesis on the labels).
+Core Lean only. -/
 namespace Ptn.C06
 open Ptn.C02
 
-/-- **One-site link update** `_update_link(a, b)`.  With `top` the upper and `bot` the lower node of the
-    pair `{a, b}`: every node other than `top` has its structure (parent, children list) unchanged, `top`
-    keeps its parent and its children, and `bot` has become its FIRST child (the other children keep
-    their relative order). -/
+/-- Reading of "the lower node of the pair `{a, b}` has become the first child of the upper one, nothing
+    else has changed". -/
+def PromotedIn (t t' : TTN) (a b : Id) : Prop :=
+  ∃ top bot Tn, ((top = a ∧ bot = b) ∨ (top = b ∧ bot = a)) ∧ t.N top = some Tn ∧ bot ∈ Tn.children ∧
+    (∀ k, k ≠ top → t'.S k = t.S k) ∧
+    t'.S top = some (Tn.parent, bot :: Tn.children.erase bot)
+
+theorem promotedIn_of {t t' : TTN} {a b : Id} (h : t.WF)
+    (hc : ∃ A, t.N a = some A ∧
+      ((b ∈ A.children ∧ t'.S = promoteS t.S a b) ∨ (A.parent = some b ∧ t'.S = promoteS t.S b a))) :
+    PromotedIn t t' a b := by
+  obtain ⟨A, hA, hcase⟩ := hc
+  rcases hcase with ⟨hb, S'⟩ | ⟨hp, S'⟩
+  · exact ⟨a, b, A, Or.inl ⟨rfl, rfl⟩, hA, hb, promote_explicit hA S'⟩
+  · obtain ⟨B, hB, hm⟩ := parent_node h hA hp
+    exact ⟨b, a, B, Or.inr ⟨rfl, rfl⟩, hB, hm, promote_explicit hB S'⟩
+
+/-- Reading of the effect of a centre move `a → b` on the structure. -/
+def CentreMovedIn (t t' : TTN) (a b : Id) : Prop :=
+  (∃ A, t.N a = some A ∧ b ∈ A.children ∧ (∀ k, k ≠ a → t'.S k = t.S k) ∧
+      t'.S a = some (A.parent, b :: A.children.erase b)) ∨
+  (∃ A B, t.N a = some A ∧ A.parent = some b ∧ t.N b = some B ∧ a ∈ B.children ∧
+      (∀ k, k ≠ b → t'.S k = t.S k) ∧
+      t'.S b = some (B.parent, B.children.erase a ++ [a]))
+
+theorem centreMovedIn_of {t t' : TTN} {a b : Id} (h : t.WF)
+    (hc : ∃ A, t.N a = some A ∧
+      ((b ∈ A.children ∧ t'.S = promoteS t.S a b) ∨ (A.parent = some b ∧ t'.S = demoteS t.S b a))) :
+    CentreMovedIn t t' a b := by
+  obtain ⟨A, hA, hcase⟩ := hc
+  rcases hcase with ⟨hb, S'⟩ | ⟨hp, S'⟩
+  · exact Or.inl ⟨A, hA, hb, promote_explicit hA S'⟩
+  · obtain ⟨B, hB, hm⟩ := parent_node h hA hp
+    exact Or.inr ⟨A, B, hA, hp, hB, hm, demote_explicit hB S'⟩
+
+/-! ### structure and labels -/
+
+/-- **One-site link update** `_update_link(a, b)`.  The network stays well-formed and label-consistent; with
+    `top` the upper and `bot` the lower node of the pair: every node other than `top` has its structure
+    (parent, children list) unchanged, `top` keeps its parent and its children, and `bot` has become its FIRST
+    child (the other children keep their relative order); **every node keeps exactly its open legs** (labels,
+    order, dimensions). -/
+theorem link_update_structure {t t' : TTN} {a b link : Id} {bd : Nat} (h : t.WF) (hl : t.LWF)
+    (hfresh : t.N link = none) (hs : t.linkUpdate a b link bd = some t') :
+    t'.WF ∧ t'.LWF ∧ t'.root = t.root ∧ PromotedIn t t' a b ∧ ∀ k, t'.openAxes k = t.openAxes k := by
+  obtain ⟨w, R, hc⟩ := link_update_full (TTN.WFX.ofLWF h hl) hfresh hs
+  exact ⟨w.wf, w.lwf trivial, R, promotedIn_of h hc, w.op trivial⟩
+
+/-- **Two-site update** `_update_two_site_nodes(a, b)` (any truncated bond dimension): as for the link update. -/
+theorem two_site_update_structure {t t' : TTN} {a b ts : Id} {bd : Nat} (h : t.WF) (hl : t.LWF)
+    (hfresh : t.N ts = none) (hs : t.twoSiteUpdate a b ts bd = some t') :
+    t'.WF ∧ t'.LWF ∧ t'.root = t.root ∧ PromotedIn t t' a b ∧ ∀ k, t'.openAxes k = t.openAxes k := by
+  obtain ⟨w, R, hc⟩ := two_site_full (TTN.WFX.ofLWF h hl) hfresh hs
+  exact ⟨w.wf, w.lwf trivial, R, promotedIn_of h hc, w.op trivial⟩
+
+/-- **Centre move** `split_qr_contract_r_to_neighbour(a, b)`.  Towards a child `b` of `a`: `b` becomes the
+    FIRST child of `a`.  Towards the parent `b` of `a`: `a` becomes the LAST child of `b`.  Nothing else
+    changes in the structure, and every node keeps exactly its open legs. -/
+theorem centre_move_structure {t t' : TTN} {a b rid : Id} {bd : Nat} (h : t.WF) (hl : t.LWF)
+    (hfresh : t.N rid = none) (hs : t.centreMove a b rid bd = some t') :
+    t'.WF ∧ t'.LWF ∧ t'.root = t.root ∧ CentreMovedIn t t' a b ∧ ∀ k, t'.openAxes k = t.openAxes k := by
+  obtain ⟨w, R, hc⟩ := centre_move_full (TTN.WFX.ofLWF h hl) hfresh hs
+  exact ⟨w.wf, w.lwf trivial, R, centreMovedIn_of h hc, w.op trivial⟩
+
+/-- **Any sequence** of site accesses, link updates, two-site updates, centre moves (and
+    `contract_and_split_with_parent`s) – i.e. a TDVP time step of any order, including the initial
+    canonicalisation: the network stays well-formed (so the statement composes with
+    `Ptn.C02.ops_preserve_wf`) and label-consistent; root, identifiers and the parent of every node are
+    preserved, the children of every node up to order; **every node keeps exactly its open legs, in order, with
+    their dimensions – only bond dimensions change**. -/
+theorem tdvp_step_structure {t t' : TTN} {es : List TdvpEvent} (h : t.WF) (hl : t.LWF)
+    (hr : TdvpRun t es t') :
+    t'.WF ∧ t'.LWF ∧ t'.root = t.root ∧
+    (∀ k, t'.N k = none ↔ t.N k = none) ∧
+    (∀ k n, t.N k = some n →
+      ∃ n', t'.N k = some n' ∧ n'.parent = n.parent ∧ n'.children.Perm n.children) ∧
+    (∀ k, t'.openAxes k = t.openAxes k) := by
+  obtain ⟨w, l, R, E, o⟩ := tdvp_run_labels h hl hr
+  exact ⟨w, l, R, (treeEq_explicit E).1, (treeEq_explicit E).2, o⟩
+
+/-! ### structure only (no hypothesis on the labels) -/
+
 theorem link_update_structure_partial {t t' : TTN} {a b link : Id} {bd : Nat} (h : t.WF)
     (hfresh : t.N link = none) (hs : t.linkUpdate a b link bd = some t') :
     t'.WF ∧ t'.root = t.root ∧
     ∃ top bot Tn, ((top = a ∧ bot = b) ∨ (top = b ∧ bot = a)) ∧ t.N top = some Tn ∧ bot ∈ Tn.children ∧
       (∀ k, k ≠ top → t'.S k = t.S k) ∧
       t'.S top = some (Tn.parent, bot :: Tn.children.erase bot) := by
-  obtain ⟨w, R, A, hA, hcase⟩ := link_update_full h hfresh hs
-  refine ⟨w, R, ?_⟩
-  rcases hcase with ⟨hb, S'⟩ | ⟨hp, S'⟩
-  · exact ⟨a, b, A, Or.inl ⟨rfl, rfl⟩, hA, hb, promote_explicit hA S'⟩
-  · obtain ⟨B, hB, hm⟩ := parent_node h hA hp
-    exact ⟨b, a, B, Or.inr ⟨rfl, rfl⟩, hB, hm, promote_explicit hB S'⟩
+  obtain ⟨w, R, hc⟩ := link_update_full (TTN.WFX.ofWF h) hfresh hs
+  exact ⟨w.wf, R, promotedIn_of h hc⟩
 
-/-- **Two-site update** `_update_two_site_nodes(a, b)`: as for the link update – the lower node of the pair
-    becomes the FIRST child of the upper one, nothing else changes. -/
 theorem two_site_update_structure_partial {t t' : TTN} {a b ts : Id} {bd : Nat} (h : t.WF)
     (hfresh : t.N ts = none) (hs : t.twoSiteUpdate a b ts bd = some t') :
     t'.WF ∧ t'.root = t.root ∧
     ∃ top bot Tn, ((top = a ∧ bot = b) ∨ (top = b ∧ bot = a)) ∧ t.N top = some Tn ∧ bot ∈ Tn.children ∧
       (∀ k, k ≠ top → t'.S k = t.S k) ∧
       t'.S top = some (Tn.parent, bot :: Tn.children.erase bot) := by
-  obtain ⟨w, R, A, hA, hcase⟩ := two_site_full h hfresh hs
-  refine ⟨w, R, ?_⟩
-  rcases hcase with ⟨hb, S'⟩ | ⟨hp, S'⟩
-  · exact ⟨a, b, A, Or.inl ⟨rfl, rfl⟩, hA, hb, promote_explicit hA S'⟩
-  · obtain ⟨B, hB, hm⟩ := parent_node h hA hp
-    exact ⟨b, a, B, Or.inr ⟨rfl, rfl⟩, hB, hm, promote_explicit hB S'⟩
+  obtain ⟨w, R, hc⟩ := two_site_full (TTN.WFX.ofWF h) hfresh hs
+  exact ⟨w.wf, R, promotedIn_of h hc⟩
 
-/-- **Centre move** `split_qr_contract_r_to_neighbour(a, b)`.  Towards a child `b` of `a`: `b` becomes the
-    FIRST child of `a`.  Towards the parent `b` of `a`: `a` becomes the LAST child of `b` (here
-    `contract_nodes` is called with the neighbour first).  Nothing else changes. -/
 theorem centre_move_structure_partial {t t' : TTN} {a b rid : Id} {bd : Nat} (h : t.WF)
     (hfresh : t.N rid = none) (hs : t.centreMove a b rid bd = some t') :
     t'.WF ∧ t'.root = t.root ∧
@@ -72,18 +136,9 @@ theorem centre_move_structure_partial {t t' : TTN} {a b rid : Id} {bd : Nat} (h 
      (∃ A B, t.N a = some A ∧ A.parent = some b ∧ t.N b = some B ∧ a ∈ B.children ∧
         (∀ k, k ≠ b → t'.S k = t.S k) ∧
         t'.S b = some (B.parent, B.children.erase a ++ [a]))) := by
-  obtain ⟨w, R, A, hA, hcase⟩ := centre_move_full h hfresh hs
-  refine ⟨w, R, ?_⟩
-  rcases hcase with ⟨hb, S'⟩ | ⟨hp, S'⟩
-  · exact Or.inl ⟨A, hA, hb, promote_explicit hA S'⟩
-  · obtain ⟨B, hB, hm⟩ := parent_node h hA hp
-    exact Or.inr ⟨A, B, hA, hp, hB, hm, demote_explicit hB S'⟩
+  obtain ⟨w, R, hc⟩ := centre_move_full (TTN.WFX.ofWF h) hfresh hs
+  exact ⟨w.wf, R, centreMovedIn_of h hc⟩
 
-/-- **Any sequence** of site accesses, link updates, two-site updates, centre moves (and
-    `contract_and_split_with_parent`s) – i.e. a TDVP time step of any order, including the initial
-    canonicalisation – keeps the network well-formed (so it composes with `Ptn.C02.ops_preserve_wf`) and
-    preserves the root, the identifiers, the parent of every node and the children of every node up to
-    order. -/
 theorem tdvp_step_structure_partial {t t' : TTN} {es : List TdvpEvent} (h : t.WF) (hr : TdvpRun t es t') :
     t'.WF ∧ t'.root = t.root ∧
     (∀ k, t'.N k = none ↔ t.N k = none) ∧
@@ -132,5 +187,18 @@ example : ∃ t t', TRun TTN.empty buildOps t ∧
     TdvpRun t [.move 3 1 60 2, .access 1, .link 1 2 61 3, .access 2, .twoSite 2 1 62 2] t' :=
   ⟨_, _, .cons ⟨rfl, rfl⟩ rfl (.cons trivial rfl (.cons trivial rfl (.nil _))),
     .cons rfl rfl (.cons trivial rfl (.cons rfl rfl (.cons trivial rfl (.cons rfl rfl (.nil _)))))⟩
+
+/-- The same network is label-consistent (it is built with matching bond labels `100`, `101`), so the
+    hypotheses of the label-level theorems are satisfiable; a two-site update with a truncated bond keeps the
+    open axes of every node (`⟨0, 2⟩` at the root, `⟨1, 2⟩` at `2`, `⟨2, 2⟩` at `3`). -/
+example : ∃ t t', TRunL TTN.empty buildOps t ∧ t.WF ∧ t.LWF ∧ t.N 51 = none ∧
+    t.twoSiteUpdate 1 3 51 1 = some t' ∧
+    t.openAxes 1 = [⟨0, 2⟩] ∧ t'.openAxes 1 = [⟨0, 2⟩] ∧ t'.openAxes 2 = [⟨1, 2⟩] ∧ t'.openAxes 3 = [⟨2, 2⟩] :=
+  ⟨_, _, .cons ⟨rfl, rfl⟩ trivial rfl (.cons trivial ⟨_, rfl, rfl⟩ rfl (.cons trivial ⟨_, rfl, rfl⟩ rfl (.nil _))),
+    (builtL_labels (show TRunL TTN.empty buildOps _ from
+      .cons ⟨rfl, rfl⟩ trivial rfl (.cons trivial ⟨_, rfl, rfl⟩ rfl (.cons trivial ⟨_, rfl, rfl⟩ rfl (.nil _))))).1,
+    (builtL_labels (show TRunL TTN.empty buildOps _ from
+      .cons ⟨rfl, rfl⟩ trivial rfl (.cons trivial ⟨_, rfl, rfl⟩ rfl (.cons trivial ⟨_, rfl, rfl⟩ rfl (.nil _))))).2,
+    rfl, rfl, rfl, rfl, rfl, rfl⟩
 
 end Ptn.C06
